@@ -54,7 +54,9 @@ HOSTILE_TEXT = ('1e3', 'TRUE', 'false', 'null', '~', 'a: b', '- x', '{a: 1}', '[
                 '0123', '1_000', '2021-01-01', '1:30', '.5', '0x1F', '1e22', '#', '# c', '@x',
                 '%y', '!tag', '&anchor', '*alias', '|', '>', '? q', 'key: [', "'", '""', '\\n',
                 'x' * 130, 'a,b', '-0.0', 'on', 'off', '12e', 'S!A1', '3 ', 'smile \U0001F600 x',
-                '\u00e9\u4e2d\u6587', 'back\\slash', 'q"uote\\"')
+                '\u00e9\u4e2d\u6587', 'back\\slash', 'q"uote\\"',
+                # line breaks other than \\n, DEL and C1 controls, byte order mark
+                'nel\x85x', 'ls\u2028x', 'ps\u2029 y', 'del\x7fx', 'c1\x9cx', 'bom\ufeffx')
 # not in the pool: 'NaN', 'inf', '.inf' - pycel's number coercion turns such text into float
 # nan/inf (operator semantics, C10, not claimed) and the original model itself then raises
 HOSTILE_NUM = (1e-7, 1e22, -0.0, 0.1 + 0.2, 123456789012345678, 1e-300, 2 ** 53 + 1.0, -1e-5,
